@@ -152,6 +152,29 @@ def build_form(case, with_heur=True):
     """returns (object, heuristic outcome) where outcome is None / 'ok' / error kind"""
     from vrpqubo.routing_problem import ArcBasedRoutingProblem, PathBasedRoutingProblem, SequenceBasedRoutingProblem
     form = case["form"]
+    if case.get("mirp") is not None:
+        # formulation obtained from a MIRP through its getter (with or without the heuristic run by the getter)
+        m, results = MU.build_py(case["mirp"])
+        if any(r[0] != "ok" for r in results):
+            raise core.Infra("MIRP spec of a formulation case does not build")
+        heur = case.get("heur")
+        try:
+            np.random.seed(case.get("seed", 0))
+            if form == "arc":
+                o = m.get_arc_based(make_feasible=False)
+            elif form == "path":
+                o = m.get_path_based(make_feasible=False)
+            else:
+                o = m.get_sequence_based(make_feasible=False, strict=case.get("strict", True))
+            if heur is not None and with_heur:
+                # (a dyadic high cost instead of the getter's own estimate, which is not exactly representable)
+                o.make_feasible(VU.val(heur))
+            return o, ("ok" if heur is not None and with_heur else None)
+        except Exception as e:  # noqa
+            o = {"arc": m.abrp, "path": m.pbrp, "seq": m.sbrp}[form]
+            if o is None:
+                raise core.Infra("MIRP getter failed before creating the object")
+            return o, core.err_kind(e) + ":" + repr(e)[:120]
     if case.get("via") == "wrapper":
         spec = case["spec"]
         v = None
